@@ -9,8 +9,8 @@ use std::time::Duration;
 pub fn def() -> CheckDef {
     CheckDef {
         id: "C03",
-        functions: &["strict::OpenHypergraph::{compose,tensor,identity,twist,source,target}", "FiniteFunction::{twist,identity,tensor,inject0,inject1,coequalizer,compose}", "finite_function::coequalizer_universal", "strict::Hypergraph::{coproduct,coequalize_vertices,discrete}"],
-        bounds_quick: "associativity: triples W<=2,X<=1,S,T<=1,interfaces<=1 (+ corner triples with interfaces 2); identity laws W<=2,X<=1,S,T<=2,interfaces<=2; interchange: quadruples W<=1,X<=1,interfaces<=1; twist naturality: pairs W<=2,X<=1,interfaces<=1..2; self-inverse and hexagons: object lists of length <=2 each; seed-sampled under the budget after the mandatory corners",
+        functions: &["strict::OpenHypergraph::{compose,tensor,identity,twist,source,target}", "FiniteFunction::{twist,identity,tensor,inject0,inject1,coequalizer,compose}", "finite_function::coequalizer_universal", "strict::Hypergraph::{coproduct,coequalize_vertices,discrete}", "lax::category::{Arrow::compose,Monoidal::tensor,SymmetricMonoidal::twist}, lax::OpenHypergraph::{identity,to_strict} (lax half)"],
+        bounds_quick: "lax half: triples of lax diagrams with <=2 nodes, <=1 hyperedge, <=1 pending pair each (<=7 node references per triple; wirings enumerated, labels symbolic): associativity incl. right-nested un-quotiented composites, identities, interchange with identities, naturality of the symmetry, compared after to_strict; strict: associativity: triples W<=2,X<=1,S,T<=1,interfaces<=1 (+ corner triples with interfaces 2); identity laws W<=2,X<=1,S,T<=2,interfaces<=2; interchange: quadruples W<=1,X<=1,interfaces<=1; twist naturality: pairs W<=2,X<=1,interfaces<=1..2; self-inverse and hexagons: object lists of length <=2 each; seed-sampled under the budget after the mandatory corners",
         bounds_thorough: "W<=2,X<=2 everywhere, pairs W<=3, object lists <=3",
         jobs,
         budget_s: (170, 1500),
@@ -63,6 +63,14 @@ fn oracle_hexagon(_inp: &PV, out: &PV) -> T {
         return tm::FALSE;
     }
     tm::and(vec![iso_opts(out.at(0), out.at(1)), iso_opts(out.at(2), out.at(3))])
+}
+
+fn oracle_lax(_inp: &PV, out: &PV) -> T {
+    if out.is_panic() {
+        return tm::FALSE;
+    }
+    let f = PV::Some(Box::new(out.at(4).clone()));
+    tm::and(vec![iso_opts(out.at(0), out.at(1)), iso_opts(out.at(2), &f), iso_opts(out.at(3), &f), iso_opts(out.at(5), out.at(6)), iso_opts(out.at(7), out.at(8))])
 }
 
 fn gen_chain(shs: Vec<Shape>) -> impl Fn() -> PV + Send + Sync {
@@ -193,6 +201,35 @@ pub fn jobs(tier: Tier, seed: u64) -> Vec<Job> {
         }
     }
     groups.push(g_sym);
+    // ---- lax half: the same laws for lax diagrams (lax tier), compared after strictification
+    let mut g_lax = vec![];
+    let lshs: Vec<LaxShape> = super::lax::small_shapes(tier).into_iter().filter(|s| s.refs() <= 3 && s.n <= 2).collect();
+    let mut ltriples = vec![];
+    for f in &lshs {
+        for g in &lshs {
+            for h in &lshs {
+                if f.b == g.a && g.b == h.a && f.refs() + g.refs() + h.refs() <= 7 {
+                    ltriples.push((f.clone(), g.clone(), h.clone()));
+                }
+            }
+        }
+    }
+    Rng::new(seed ^ 9).shuffle(&mut ltriples);
+    ltriples.sort_by_key(|(f, g, h)| (f.b == 0 || g.b == 0) as u8 + (f.q + g.q + h.q == 0) as u8);
+    for (f, g, h) in ltriples.into_iter().take(if tier == Tier::Quick { 600 } else { 6000 }) {
+        let name = format!("lax laws {} {} {}", f.show(), g.show(), h.show());
+        let gen = move || {
+            let (rf, rg, rh) = (gen_lax(&f, "f"), gen_lax(&g, "g"), gen_lax(&h, "h"));
+            // composable and label-consistent operands
+            let lab = |r: &RawLax, refs: &[T]| refs.iter().map(|t| r.nodes[RawLax::id(*t)]).collect::<Vec<T>>();
+            assume(all_eq(&lab(&rf, &rf.t), &lab(&rg, &rg.s)));
+            assume(all_eq(&lab(&rg, &rg.t), &lab(&rh, &rh.s)));
+            assume(tm::and(vec![super::lax::consistent(&rf), super::lax::consistent(&rg), super::lax::consistent(&rh)]));
+            PV::List(vec![PV::Lax(rf), PV::Lax(rg), PV::Lax(rh)])
+        };
+        g_lax.push((false, crate::case!(name, gen, c03_lax, oracle_lax, 5)));
+    }
+    groups.push(g_lax);
     // round-robin over the groups so every law gets a share of the budget; mandatory cases first
     let mut out = vec![];
     for grp in groups.iter_mut() {
